@@ -41,6 +41,7 @@ def run(ctx):
     r2(ctx, facts)
     for f in facts.need(RS + "_calculate_initial_rotation_tp", "A", floor=2):
         r3_initial(ctx, facts, f)
+    r4_no_remembered_state(ctx, facts)
 
 
 def freq_tests(f, g):
@@ -415,3 +416,40 @@ def r3_initial(ctx, facts, f):
     ctx.ob("C15.R3d", site + ":past-point-moved-ahead", ok,
            "the computed point is used only when it lies strictly after the start instant, otherwise a day is added (a first point at "
            "or before the start would rotate on the very first statement)", fn=f)
+
+
+def r4_no_remembered_state(ctx, facts):
+    """R4: the helpers that compute file names, date suffixes and rotation points are functions of their arguments. A helper may keep a
+    result in a static / thread-local variable only if the test that hands the remembered value back compares every parameter (a
+    remembered suffix keyed on the instant but not on the time zone names the next file in the wrong zone)."""
+    helpers = ["quill::FileSink::format_datetime_string", "quill::FileSink::append_datetime_to_filename",
+               "quill::FileSink::extract_stem_and_extension", RS + "_get_filename", RS + "_append_index_to_filename",
+               RS + "_append_string_to_filename", RS + "_calculate_initial_rotation_tp", RS + "_calculate_rotation_tp"]
+    n = 0
+    for h in helpers:
+        fs = facts.fn(h, "A")
+        if not fs:
+            raise AnalysisBroken("helper %s not found" % h)
+        for f in fs:
+            n += 1
+            g = f.g
+            params = {p["did"]: p.get("name") for p in f.rec["params"]}
+            state = {}
+            for x in f.walk():
+                if x["k"] == "DeclStmt":
+                    for v in x.get("decls") or []:
+                        if (v.get("static") or v.get("tls")) and not (v.get("ty") or "").startswith("const "):
+                            state[v["did"]] = v["name"]
+            missing = []
+            if state:
+                compared = set()
+                for bid, b in g.blocks.items():
+                    c = g.term_cond(bid)
+                    if c is None or not any(var_ref(y) in state for y in walk(c)):
+                        continue
+                    compared |= {var_ref(y) for y in walk(c) if var_ref(y) in params}
+                missing = [nm for did, nm in params.items() if did not in compared]
+            ctx.ob("C15.R4", "%s:function-of-its-arguments" % f.name.replace("quill::", ""), not missing,
+                   "no result is remembered across calls%s" % ("" if not state else
+                   " except in %s, and the test on it compares every parameter (not compared: %s)" % (sorted(state.values()), missing)), fn=f)
+    ctx.floor("C15.R4", "name / rotation-point helpers", n, 8)
